@@ -115,6 +115,7 @@ type c17Case struct {
 	flavour  map[string]string // name+keys -> "s" | "h" for usable timers / histograms (harness bookkeeping for signatures only)
 	failed   bool
 	lines    int
+	split    int // > 0: the next scope-route use asks SubScope(name[:split]) for name[split+1:] (another tally object on the same series)
 }
 
 func newC17Case(c *Ctx, class string, hist, cbPanics bool, defBuckets []float64) *c17Case {
@@ -231,6 +232,11 @@ func (k *c17Case) use(kind, name string, tags map[string]string, spec c17Spec) i
 	if len(tags) > 0 {
 		sc = k.root.Tagged(tags)
 	}
+	local := name
+	if k.split > 0 {
+		sc, local = sc.SubScope(name[:k.split]), name[k.split+1:]
+		k.split = 0
+	}
 	cb0, errs0, calls0 := k.cbCount, len(k.cbErrs), k.obs.calls
 	// "rcd:<desc>" / "rgd:<desc>": RegisterCounter / RegisterGauge with the caller's own description
 	desc := ""
@@ -343,15 +349,15 @@ func (k *c17Case) use(kind, name string, tags map[string]string, spec c17Spec) i
 		p, v := catch(func() {
 			switch kind {
 			case "c":
-				obj = sc.Counter(name)
+				obj = sc.Counter(local)
 			case "g":
-				obj = sc.Gauge(name)
+				obj = sc.Gauge(local)
 			case "t":
-				obj = sc.Timer(name)
+				obj = sc.Timer(local)
 			case "hv":
-				obj = sc.Histogram(name, tally.ValueBuckets(spec.vals))
+				obj = sc.Histogram(local, tally.ValueBuckets(spec.vals))
 			case "hd":
-				obj = sc.Histogram(name, tally.DurationBuckets(spec.durs))
+				obj = sc.Histogram(local, tally.DurationBuckets(spec.durs))
 			default:
 				fatalf("c17: unknown kind %s", kind)
 			}
@@ -697,9 +703,13 @@ func c17HistoryCase(c *Ctx, r *Rng) {
 		metrics = append(metrics, m)
 	}
 	type live struct {
-		id int
-		m  c17Metric
+		id     int
+		m      c17Metric
+		series string // name and tags: two tally objects may report into one series (root scope and sub-scope route)
 	}
+	aliased := map[string]bool{} // series that has a second tally object
+	dirty := map[string]int{}    // gauge series -> the one object updated since the last pass
+	lastUpd := map[int]float64{} // gauge object -> its previous update
 	var lives []live
 	used := map[string]bool{}
 	onBound, twoSeries, rejected := false, false, false
@@ -707,7 +717,21 @@ func c17HistoryCase(c *Ctx, r *Rng) {
 	transcript := []string{fmt.Sprintf("hist=%v cb=%v", hist, cbPanics)}
 	doUse := func(m c17Metric, tags map[string]string) {
 		key := m.kind[:1] + "|" + m.name + "|" + mapHex(tags)
+		ser := m.name + "|" + mapHex(tags)
 		if used[key] {
+			// the same kind, name and tags once more: through the sub-scope named like the part of the name before its
+			// first separator this is ANOTHER tally object whose Allocate call returns the same Prometheus series
+			us := strings.IndexByte(m.name, '_')
+			if us > 0 && us < len(m.name)-1 && !aliased[key] && r.Chance(60) {
+				aliased[key] = true
+				k.split = us
+				id := k.use(m.kind, m.name, tags, m.spec)
+				transcript = append(transcript, "use-via-subscope "+key)
+				c.Cov.Hit("history.second-object-on-one-series." + m.kind)
+				if id >= 0 && !k.handles[id].dead {
+					lives = append(lives, live{id, m, ser})
+				}
+			}
 			return
 		}
 		used[key] = true
@@ -727,7 +751,7 @@ func c17HistoryCase(c *Ctx, r *Rng) {
 			if pid >= 0 && !k.handles[pid].dead {
 				pm := m
 				pm.kind = pk
-				lives = append(lives, live{pid, pm})
+				lives = append(lives, live{pid, pm, ser})
 			}
 			if full != pk && r.Chance(40) {
 				// ... and the other kind under the same name, label names and description straight away
@@ -738,14 +762,14 @@ func c17HistoryCase(c *Ctx, r *Rng) {
 				if oid >= 0 && !k.handles[oid].dead {
 					om := m
 					om.kind = other[:2]
-					lives = append(lives, live{oid, om})
+					lives = append(lives, live{oid, om, ser})
 				}
 			}
 		}
 		id := k.use(m.kind, m.name, tags, m.spec)
 		transcript = append(transcript, "use "+key)
 		if id >= 0 && !k.handles[id].dead {
-			lives = append(lives, live{id, m})
+			lives = append(lives, live{id, m, ser})
 			if k.obs.lastType == "prometheus.noopMetric" {
 				rejected = true
 			} else {
@@ -785,6 +809,7 @@ func c17HistoryCase(c *Ctx, r *Rng) {
 			doUse(m, genTags(r, m.keys))
 		case x < 22:
 			k.pass()
+			dirty = map[string]int{}
 			transcript = append(transcript, "pass")
 			if r.Intn(3) == 0 {
 				k.gather()
@@ -822,6 +847,20 @@ func c17HistoryCase(c *Ctx, r *Rng) {
 				default:
 					v = float64(r.Range(-1000, 1000)) / 4
 				}
+				if prev, ok := lastUpd[l.id]; ok && r.Chance(35) {
+					v = prev // updated to the value it was given last
+					c.Cov.Hit("history.gauge-updated-to-its-previous-value")
+				}
+				if d, ok := dirty[l.series]; ok && d != l.id {
+					// two objects of one series updated within one interval would be delivered in the registry's
+					// (map) order: a pass in between keeps the history deterministic
+					k.pass()
+					dirty = map[string]int{}
+					transcript = append(transcript, "pass")
+					c.Cov.Hit("history.gauge-series-updated-through-both-objects")
+				}
+				dirty[l.series] = l.id
+				lastUpd[l.id] = v
 				k.upd(l.id, v)
 				transcript = append(transcript, fmt.Sprintf("upd %d %x", l.id, math.Float64bits(v)))
 			case "t":
